@@ -238,3 +238,26 @@ func (k Keeper) DeclineCustody(ctx sdk.Context, msg *types.MsgDeclineCustodyTran
 
 	store.Set(key, []byte("-1"))
 }
+
+// RotateCustodyVotes re-keys the vote marks recorded for transfers of account from, so that they follow
+// the account to its rotated address (keys are prefix | voter | target | lower-case hash, 20-byte addresses).
+func (k Keeper) RotateCustodyVotes(ctx sdk.Context, from sdk.AccAddress, to sdk.AccAddress) {
+	store := prefix.NewStore(ctx.KVStore(k.storeKey), []byte(types.PrefixKeyCustodyVote))
+	iterator := store.Iterator(nil, nil)
+	var keys, values [][]byte
+
+	for ; iterator.Valid(); iterator.Next() {
+		key := iterator.Key()
+		if len(key) >= 2*len(from) && string(key[len(from):2*len(from)]) == string(from) {
+			keys = append(keys, append([]byte{}, key...))
+			values = append(values, append([]byte{}, iterator.Value()...))
+		}
+	}
+
+	iterator.Close()
+
+	for i, key := range keys {
+		store.Delete(key)
+		store.Set(append(append(append([]byte{}, key[:len(from)]...), to...), key[2*len(from):]...), values[i])
+	}
+}
